@@ -28,6 +28,9 @@ func runC08(c *Ctx) {
 
 	c.Rule("R08f", "strip-both-ends slices cannot go out of range: for every x[a:len(x)-b] in sql/migrate the conditions enclosing it (len tests, HasPrefix/HasSuffix with constant arguments) imply len(x) >= a+b; a prefix and a suffix that can overlap in one short string do not", 1)
 
+	c.Rule("R08g", ruleTextLoopProgress, 5)
+	checkLoopProgress(c, "R08g")
+
 	p := c.Pkg(pMigrate)
 	info := p.TypesInfo
 	checkSpaceClass(c, info)
